@@ -57,8 +57,8 @@ def histories(rng, tier, n):
     return lines, meta
 
 def gen(rng, tier):
-    l1, m1 = irq_cases(rng, tier, 2 if tier == "quick" else 30)
-    l2, m2 = histories(rng, tier, 150 if tier == "quick" else 3000)
+    l1, m1 = irq_cases(rng, tier, 2 if tier == "quick" else 200)
+    l2, m2 = histories(rng, tier, 150 if tier == "quick" else 30000)
     m1.update(m2)
     return l1 + l2, m1
 
